@@ -8,10 +8,10 @@ package ratelimit
 // janitor goroutines it starts.
 
 import (
-	"fmt"
 	"reflect"
 	"runtime"
 	"sort"
+	"strconv"
 	"strings"
 	"sync/atomic"
 	"time"
@@ -24,51 +24,53 @@ import (
 // timestamps are printed relative to now, oldest first; never written slots
 // are not printed.
 func VerifDumpCounter(r *RequestCounter, now time.Time) (s string) {
+	return string(verifAppendCounter(nil, r, now.UnixNano()))
+}
+
+func verifAppendCounter(b []byte, r *RequestCounter, nowNs int64) (res []byte) {
 	r.mu.Lock()
 	defer r.mu.Unlock()
 
-	nowNs := now.UnixNano()
-	sb := &strings.Builder{}
-	fmt.Fprintf(sb, "cap=%d ivl=%d len=%d [", r.ringCap(), int64(r.ivl), r.ring.Len())
+	b = append(b, "ivl="...)
+	b = strconv.AppendInt(b, int64(r.ivl), 10)
+	b = append(b, " len="...)
+	b = strconv.AppendUint(b, uint64(r.ring.Len()), 10)
+	b = append(b, " ["...)
 	r.ring.Range(func(ts int64) (cont bool) {
-		fmt.Fprintf(sb, "%d ", ts-nowNs)
+		b = strconv.AppendInt(b, ts-nowNs, 10)
+		b = append(b, ' ')
 
 		return true
 	})
-	sb.WriteString("]")
 
-	return sb.String()
-}
-
-// ringCap returns the capacity of the ring of r.
-func (r *RequestCounter) ringCap() (n int) {
-	// The ring has no capacity accessor; count the slots through Range of a
-	// full buffer or, for a buffer that is not full yet, through reflection.
-	v := reflect.ValueOf(r.ring).Elem().FieldByName("buf")
-
-	return v.Len()
+	return append(b, ']')
 }
 
 // VerifDump returns every field of l that future behaviour depends on, in
-// canonical (sorted, time relative to now) form.
+// canonical (sorted, time relative to now) form.  (The configuration fields
+// are constant and are not printed.)
 func VerifDump(l *Backoff, now time.Time) (s string) {
 	nowNs := now.UnixNano()
 	var lines []string
 	for k, it := range l.reqCounters.Items() {
-		lines = append(lines, fmt.Sprintf(
-			"req %s exp=%d %s",
-			k,
-			it.Expiration-nowNs,
-			VerifDumpCounter(it.Object.(*RequestCounter), now),
-		))
+		b := make([]byte, 0, 96)
+		b = append(b, "req "...)
+		b = append(b, k...)
+		b = append(b, " exp="...)
+		b = strconv.AppendInt(b, it.Expiration-nowNs, 10)
+		b = append(b, ' ')
+		b = verifAppendCounter(b, it.Object.(*RequestCounter), nowNs)
+		lines = append(lines, string(b))
 	}
 	for k, it := range l.hitCounters.Items() {
-		lines = append(lines, fmt.Sprintf(
-			"hit %s exp=%d n=%d",
-			k,
-			it.Expiration-nowNs,
-			it.Object.(*atomic.Uint64).Load(),
-		))
+		b := make([]byte, 0, 64)
+		b = append(b, "hit "...)
+		b = append(b, k...)
+		b = append(b, " exp="...)
+		b = strconv.AppendInt(b, it.Expiration-nowNs, 10)
+		b = append(b, " n="...)
+		b = strconv.AppendUint(b, it.Object.(*atomic.Uint64).Load(), 10)
+		lines = append(lines, string(b))
 	}
 	sort.Strings(lines)
 
